@@ -545,6 +545,85 @@ fn diagnostics_case(cx: &mut CaseCtx, input: Input, cfg: &GenCfg) -> CaseResult 
     Ok(())
 }
 
+/// (3b) Lints about a defective doc comment point into that comment's lines.  C16's comment
+/// defects planted on one victim, free layouts; the printer recorded where every comment line is.
+fn comment_defects_case(cx: &mut CaseCtx, input: Input, cfg: &GenCfg) -> CaseResult {
+    let (lay_bytes, prog_bytes) = split_input(input.bytes());
+    let mut u = Unstructured::new(prog_bytes);
+    let d = match crate::c16::make_defect(&mut u, cfg) {
+        Ok(d) => d,
+        Err(_) => {
+            cx.label("defect-not-applicable");
+            return Ok(());
+        }
+    };
+    let p = &d.program;
+    cx.set_key(&(p, lay_bytes));
+    if !crate::rules::check_program(p).well_formed() {
+        cx.label("skipped-ill-formed");
+        return Ok(());
+    }
+    let (texts, rendered) = render_layout(p, lay_bytes, 1);
+    cx.sample_with(|| json!({"files": texts, "defect": d.name, "victim": d.victim}));
+    if std::env::var_os("VCHECK_NO_COMPILE").is_some() {
+        return Ok(());
+    }
+    let state = compile_strings(&texts, None);
+    let paths: Vec<String> = state.files.iter().map(|f| f.relative_path.clone()).collect();
+    let diags = diagnostics_of(state, &Default::default());
+    let vfi = file_index(&d.victim);
+    let Some(vdoc) = rendered.get(vfi).and_then(|r| r.docs.get(&d.victim)) else {
+        cx.label("victim-comment-not-recorded");
+        return Ok(());
+    };
+    let region = (vdoc.first().unwrap().slashes, vdoc.last().unwrap().line_end);
+    let mut judged = 0;
+    for g in &diags {
+        let Some((start, end, file)) = &g.span else { continue };
+        let Some(fi) = paths.iter().position(|p| p == file) else {
+            fail!(format!("diagnostic-span/unknown-file/{}", g.code), "{} names file {file:?}", g.code);
+        };
+        let so = SpanObs { start: *start, end: *end, file: file.clone() };
+        well_formed(&so, &line_lengths(&texts[fi]), &format!("f{fi}/lint/{}", g.code))?;
+        let in_victim = fi == vfi && region.0 <= *start && *end <= region.1;
+        match g.code.as_str() {
+            "MalformedDocComment" | "IncorrectDocComment" => {
+                // other comments of the program are generated well-formed and fitting: a lint of
+                // these two kinds is about the victim's comment
+                judged += 1;
+                cx.label(format!("comment-lint/{}/{}", g.code, d.name));
+                check!(
+                    in_victim,
+                    format!("lint-outside-its-comment/{}/{}", g.code, d.name),
+                    "{} ({:?}) for defect {} on {} is reported at {start:?}..{end:?} of file {fi}; the defective comment occupies {:?}..{:?} of file {vfi}\n--- file {fi} ---\n{}",
+                    g.code,
+                    g.message,
+                    d.name,
+                    d.victim,
+                    region.0,
+                    region.1,
+                    texts[fi]
+                );
+            }
+            "BrokenDocLink" => {
+                // may concern any comment of the file: inside some recorded comment
+                let inside_any = rendered[fi].docs.values().any(|v| v.first().unwrap().slashes <= *start && *end <= v.last().unwrap().line_end);
+                check!(
+                    inside_any,
+                    "lint-outside-its-comment/BrokenDocLink",
+                    "BrokenDocLink ({:?}) at {start:?}..{end:?} of file {fi} is inside no doc comment\n--- file {fi} ---\n{}",
+                    g.message,
+                    texts[fi]
+                );
+            }
+            _ => {}
+        }
+    }
+    cx.nontrivial = judged >= 1;
+    cx.label_if(judged >= 1, "comment-lint-spans-checked");
+    Ok(())
+}
+
 /// Collects (kind, span) of everything a visitor is shown.
 #[derive(Default)]
 pub struct SpanCollector {
@@ -639,7 +718,7 @@ impl Check for C09 {
         "C09"
     }
     fn rule(&self) -> String {
-        "proptest choice sequences -> well-formed program x token-level layouts (tabs, CRLF, multi-byte characters in comments and string arguments, blank lines, comments between any two tokens); the printer records the character position of every token and the token range of every element, which are the expected spans; oracle: every span of every element / identifier / tag / value / attribute / type expression / doc-comment part reachable through the public API is inside its file, start <= end, tight as the statement says. Non-trivial = the layout has a tab, CRLF or non-ASCII character; distinct by hash of the abstract program. Family `diagnostics`: programs with 1..3 injected rule violations (C04's catalogue) in free layouts; every diagnostic/note span is inside its file and ordered, and every error's span lies inside the text (prelude included) of an element the reference rule checker names as violating a rule with that code (non-trivial = at least one such error judged). Family `snippets`: every element span, spans joined from two elements and zero-width positions attached to synthetic diagnostics and notes, written by the real emitter in human format and re-parsed against a reference that computes line numbers, tab-expanded source lines and the underline cell by cell (non-trivial = a multi-line span with a tab or non-ASCII character on an inner line, or a single-line span preceded by one)".into()
+        "proptest choice sequences -> well-formed program x token-level layouts (tabs, CRLF, multi-byte characters in comments and string arguments, blank lines, comments between any two tokens); the printer records the character position of every token and the token range of every element, which are the expected spans; oracle: every span of every element / identifier / tag / value / attribute / type expression / doc-comment part reachable through the public API is inside its file, start <= end, tight as the statement says. Non-trivial = the layout has a tab, CRLF or non-ASCII character; distinct by hash of the abstract program. Family `diagnostics`: programs with 1..3 injected rule violations (C04's catalogue) in free layouts; every diagnostic/note span is inside its file and ordered, and every error's span lies inside the text (prelude included) of an element the reference rule checker names as violating a rule with that code (non-trivial = at least one such error judged). Family `comment-defects`: C16's defective doc comments planted on one victim in free layouts; every MalformedDocComment / IncorrectDocComment lint must lie inside the lines of the victim's comment and every BrokenDocLink inside some doc comment (non-trivial = at least one such lint judged). Family `snippets`: every element span, spans joined from two elements and zero-width positions attached to synthetic diagnostics and notes, written by the real emitter in human format and re-parsed against a reference that computes line numbers, tab-expanded source lines and the underline cell by cell (non-trivial = a multi-line span with a tab or non-ASCII character on an inner line, or a single-line span preceded by one)".into()
     }
     fn assumptions(&self) -> Vec<String> {
         vec![
@@ -650,16 +729,18 @@ impl Check for C09 {
         ]
     }
     fn essential(&self, _tier: Tier) -> Vec<&'static str> {
-        vec!["spans-checked", "tab", "crlf", "non-ascii-before", "prelude-mixed", "op-no-return", "op-single-return", "op-tuple-return", "unchecked", "compact", "idempotent", "tagged", "enumerator-explicit", "type-attribute", "diagnostic-spans-checked", "snippets-checked", "multi-line-span/non-ascii-on-inner-line", "multi-line-span/tab-on-inner-line", "single-line-span/non-ascii-before", "single-line-span/tab-before", "zero-width-span"]
+        vec!["spans-checked", "tab", "crlf", "non-ascii-before", "prelude-mixed", "op-no-return", "op-single-return", "op-tuple-return", "unchecked", "compact", "idempotent", "tagged", "enumerator-explicit", "type-attribute", "diagnostic-spans-checked", "comment-lint-spans-checked", "snippets-checked", "multi-line-span/non-ascii-on-inner-line", "multi-line-span/tab-on-inner-line", "single-line-span/non-ascii-before", "single-line-span/tab-before", "zero-width-span"]
     }
     fn families(&self, tier: Tier) -> Vec<Family<'_>> {
         let layouts = tier.pick(2, 4);
         let cfg = GenCfg::default();
         let cfg2 = GenCfg::default();
         let cfg3 = GenCfg::default();
+        let cfg4 = GenCfg { max_files: 2, max_defs: 6, doc_chance: 120, ..GenCfg::default() };
         vec![
             Family::bytes("programs", 600, tier.pick(4_000, 60_000), move |cx, i| case(cx, i, layouts, &cfg)),
             Family::bytes("diagnostics", 500, tier.pick(3_000, 50_000), move |cx, i| diagnostics_case(cx, i, &cfg3)),
+            Family::bytes("comment-defects", 500, tier.pick(2_000, 30_000), move |cx, i| comment_defects_case(cx, i, &cfg4)),
             Family::bytes("snippets", 600, tier.pick(1_500, 25_000), move |cx, i| snippets_case(cx, i, &cfg2)),
             // regression inputs: the bytes are a source text; model-free span check
             Family::replay_only("direct", |cx, i| {
